@@ -367,12 +367,36 @@ def build(race=False):
     return vlib.go_build("pooldrv", race=race)
 
 
+def stage_bigprobe(ctx, col, drv):
+    """Transactions of more than one slot offered to a full pool (outside the unit-slot model): the invariants of TxPool.tla are
+    evaluated natively on every snapshot; the scenario must really reach the failing Discard (answer 'overflow')."""
+    out = ctx.work / "bigprobe.json"
+    p = run_driver(drv, ["bigprobe", "-out", str(out)], 300)
+    if p.returncode != 0:
+        raise Broken("pooldrv bigprobe failed (%d): %s" % (p.returncode, (p.stderr or p.stdout)[-1500:]))
+    runs = json.loads(out.read_text())["runs"]
+    nviol = 0
+    for r in runs:
+        shape = {"locals": r["Locals"], "remotes": r["Remotes"], "big_slots": r["BigSlots"]}
+        for v in r.get("violations") or []:
+            nviol += 1
+            what = re.sub(r"[\[<(][^\])>]*[\])>]", "_", v.get("what", ""))[:100]
+            col.reports.append(({"kind": "multi-slot-" + v.get("kind", ""), "what": what}, {"type": "bigprobe", "shape": shape, "violation": v, "steps": r["steps"]}))
+        if not (r.get("violations") or []):
+            if r["big_result"] != "overflow":
+                raise Broken("bigprobe did not reach the failing Discard: %s" % r)
+            if r["after_result"] != "ok":
+                col.reports.append(({"kind": "multi-slot-newcomer-refused-after-failed-discard", "what": r["after_result"]}, {"type": "bigprobe", "shape": shape, "steps": r["steps"]}))
+    col.cov["multi_slot_probe"] = {"runs": len(runs), "violations": nviol, "shapes": [[r["Locals"], r["Remotes"], r["BigSlots"]] for r in runs]}
+
+
 def run(ctx):
     drv = build()
     col = Collected()
     drv_race = None
     with cf.ThreadPoolExecutor(max_workers=9) as ex:
-        futs = [ex.submit(stage_design, ctx, col), ex.submit(stage_emit, ctx, col, drv), ex.submit(stage_gap, ctx, col, drv)]
+        futs = [ex.submit(stage_design, ctx, col), ex.submit(stage_emit, ctx, col, drv), ex.submit(stage_gap, ctx, col, drv),
+                ex.submit(stage_bigprobe, ctx, col, drv)]
         if ctx.quick:
             futs.append(ex.submit(stage_random, ctx, col, drv, None))
         else:
@@ -442,6 +466,8 @@ def replay(ctx, path):
         drv = build()
         wit = stage_gap(ctx, col, drv)
         print(json.dumps([{k: v for k, v in s.items() if k != "st"} for s in wit]))
+    elif rep.get("type") == "bigprobe":
+        stage_bigprobe(ctx, col, build())
     elif rep.get("type") == "random":
         drv = build(race=bool(rep.get("race")))
         seed = j.get("seed", 1)
